@@ -1011,6 +1011,9 @@ pub struct SchedRead {
     cycle: bool,
     idx: usize,
     inject: Option<(usize, bool)>,
+    // s_c20 (wave 6): explicit io::ErrorKind (entry of util::injected_fault's table) and run length of the injected fault
+    inj_kind: Option<usize>,
+    inj_run: usize,
     dead: bool,
     stats: Rc<Stats>,
 }
@@ -1037,13 +1040,29 @@ impl SchedRead {
                 });
             }
         }
+        // s_c20 (wave 6): @<k>(F|P)[<kind>][x<run>]: kind = explicit io::ErrorKind of the injected fault (default: rotating),
+        // run = number of consecutive failing calls of a one-shot fault (default 1)
+        let mut inj_kind = None;
+        let mut inj_run = 1usize;
+        let inj = inj.map(|i| {
+            let (i, run) = match i.split_once('x') {
+                Some((a, r)) => (a, r.parse::<usize>().expect("inject run")),
+                None => (i, 1),
+            };
+            inj_run = run;
+            let at = i.find(|c| c == 'F' || c == 'P').expect("inject F|P");
+            if at + 1 < i.len() {
+                inj_kind = Some(i[at + 1..].parse::<usize>().expect("inject kind"));
+            }
+            &i[..at + 1]
+        });
         let inject = inj.map(|i| {
             let persistent = i.ends_with('P');
             let k = i[..i.len() - 1].parse::<usize>().expect("inject index");
             (k, persistent)
         });
         let stats = Rc::new(Stats { calls: Cell::new(0), delivered: Cell::new(0) });
-        (SchedRead { data: data.to_vec(), pos: 0, events, cycle, idx: 0, inject, dead: false, stats: stats.clone() }, stats)
+        (SchedRead { data: data.to_vec(), pos: 0, events, cycle, idx: 0, inject, inj_kind, inj_run, dead: false, stats: stats.clone() }, stats)
     }
 }
 
@@ -1051,13 +1070,13 @@ impl Read for SchedRead {
     fn read(&mut self, buf: &mut [u8]) -> std::io::Result<usize> {
         let call = self.stats.calls.get();
         self.stats.calls.set(call + 1);
-        let salt = self.pos + call;
+        let salt = self.inj_kind.unwrap_or(self.pos + call);
         let fault = || crate::util::injected_fault(salt);
         if self.dead {
             return Err(fault());
         }
         if let Some((k, persistent)) = self.inject {
-            if call == k {
+            if call >= k && call < k + self.inj_run {
                 if persistent {
                     self.dead = true;
                 }
